@@ -53,10 +53,10 @@ theorem C02_idle_accounting (base : Nat) (h : History) (hn : ∀ x ∈ h, x.admi
   have h2 := held_le_inflight p hg.reg hl
   exact ⟨v, hv, by omega⟩
 
-/-- the same with the hypothesis discharged: in every history without `flush` / `gather_and_close` / `until_closed`
+/-- the same with the hypothesis discharged: in every history without `gather_and_close` (any number of concurrent `flush` calls included)
 (and without resizes) nothing is ever lost, so **slots in use = tasks in flight** in every reachable state -/
 theorem C02_idle_accounting_all (base : Nat) (h : History) (hn : ∀ x ∈ h, x.admits noSetSize = true)
-    (ha : ∀ x ∈ h, x.admits noAsync = true) (i : Nat) (c : Cfg) (p : Pool) (n : Nat)
+    (ha : ∀ x ∈ h, x.admits noGac = true) (i : Nat) (c : Cfg) (p : Pool) (n : Nat)
     (hc : ((World.init base).run h).cfgs[i]? = some c) (hp : ((World.init base).run h).pools[i]? = some p)
     (hsz : c.size0 = .fin n) :
     ∃ v, p.sem.value = .fin v ∧ v + grantsL p.sem.waiters + p.running.length + p.cancelledR.length = n :=
